@@ -256,10 +256,31 @@ func c12FindElement(pj *simdjson.ParsedJson, root *ref.Node, maxPath int) (what,
 	var path []string
 	var rec func(d int) (string, string)
 	rec = func(d int) (string, string) {
-		if d > 0 {
+		for route := 0; d > 0 && route < 3; route++ {
+			// route 0: fresh iterator (before the root); 1: iterator advanced onto the root;
+			// 2: the iterator Root() hands out, standing on the root's value
 			it := pj.Iter()
+			if route >= 1 {
+				if it.Advance() != simdjson.TypeRoot {
+					return "Advance() of a fresh iterator did not land on a root", "FindElement/route"
+				}
+			}
+			if route == 2 {
+				_, r, rerr := it.Root(nil)
+				if rerr != nil {
+					return "Root(): " + rerr.Error(), "FindElement/route"
+				}
+				it = *r
+			}
 			el, err := it.FindElement(nil, path...)
 			want, found, notObj := modelFindPath(root, path)
+			if route == 2 && root.K != ref.KObj {
+				// standing on a non-object value: any error but "not found" semantics are not specified
+				if err == nil {
+					return fmt.Sprintf("FindElement(%q) on an iterator standing on a non-object returned no error", path), "FindElement/non-object-start"
+				}
+				continue
+			}
 			switch {
 			case found:
 				if err != nil {
